@@ -620,6 +620,7 @@ class ListItem(BlockToken):
         next_line = lines.peek()
         indentation, prepend, leader, content = prev_marker if prev_marker else cls.parse_marker(line)
         content_start_line = start_line
+        breaking_tokens = [t for t in _token_types if hasattr(t, 'check_interrupts_paragraph') and not t == List]
         if content.strip() == '':
             # item starting with a blank line: look for the next non-blank line
             content_start_line += 1
@@ -634,13 +635,15 @@ class ListItem(BlockToken):
             if blanks > 1:
                 parse_buffer = tokenizer.ParseBuffer()
                 parse_buffer.loose = True
-                next_marker = cls.parse_marker(next_line) if next_line is not None else None
+                # a line that starts another block (e.g. a thematic break) does not start a new item
+                if (next_line is not None
+                        and not any(token_type.check_interrupts_paragraph(lines) for token_type in breaking_tokens)):
+                    next_marker = cls.parse_marker(next_line)
                 return (parse_buffer, indentation, prepend, leader, start_line), next_marker
         else:
             line_buffer.append(content)
 
         # loop over the following lines, looking for the end of the list item
-        breaking_tokens = [t for t in _token_types if hasattr(t, 'check_interrupts_paragraph') and not t == List]
         newline_count = 0
         while True:
             if next_line is None:
